@@ -78,6 +78,7 @@ int main(void) {
     snprintf(fsave, sizeof fsave, "%s/saved.txt", dir); snprintf(fload, sizeof fload, "%s/load.txt", dir);
     snprintf(fnone, sizeof fnone, "%s/missing.txt", dir);
     atexit(cleanup);
+    static unsigned ntab;
     qlisttbl_t *t = qlisttbl(0); int dead = 0;
     write_file(fsave, "#\n", 2);
     while (fgets(line, sizeof line, stdin)) {
@@ -88,7 +89,8 @@ int main(void) {
             int f = atoi(a1);
             if (t && !dead) t->free(t);
             t = qlisttbl((f & 1 ? QLISTTBL_UNIQUE : 0) | (f & 2 ? QLISTTBL_CASEINSENSITIVE : 0) |
-                         (f & 4 ? QLISTTBL_INSERTTOP : 0) | (f & 8 ? QLISTTBL_LOOKUPFORWARD : 0));
+                         (f & 4 ? QLISTTBL_INSERTTOP : 0) | (f & 8 ? QLISTTBL_LOOKUPFORWARD : 0) |
+                         ((++ntab & 1) ? 0 : QLISTTBL_THREADSAFE));     /* every other table with its lock: same answers */
             dead = 0; write_file(fsave, "#\n", 2); continue;
         }
         if (dead) { printf("DEAD\n"); continue; }
